@@ -95,9 +95,11 @@ def render_forwarding(o, i, fl, placement):
             L += ['class K(Base):', '    @specifiers.forwards_to_super(%s)' % deco_args(fl),
                   '    def w(%s):' % absig.render_params(with_self(o)), '        return ' + ct, '']
     elif placement == 'auto_closure':
-        L += ['def make():', '    def inner(%s):' % absig.render_params(i), '        return locals()',
+        # a module-level name spelled like the closure variable, bound to something else: local names are irrelevant, the closure cell decides
+        L += ['def inner(decoy_only):', '    return None', '',
+              'def make():', '    def inner(%s):' % absig.render_params(i), '        return locals()',
               '    def w(%s):' % absig.render_params(o), '        return ' + call_text('inner', o, fl), '    return w, inner',
-              'w, inner = make()', '']
+              'w, inner_real = make()', '']
     elif placement in ('auto_attr', 'auto_attr2'):
         chain = 'ns.inner' if placement == 'auto_attr' else 'ns.sub.inner'
         L += ['import types', 'def inner(%s):' % absig.render_params(i), '    return locals()',
@@ -113,6 +115,10 @@ def render_forwarding(o, i, fl, placement):
         L += ['def inner(%s):' % absig.render_params(i), '    return locals()',
               'def w0(%s):' % absig.render_params(hp + list(o)), '    return ' + call_text('h', o, fl),
               'w = functools.partial(w0, inner)', '']
+    elif placement == 'auto_param_default':
+        L += ['def inner(%s):' % absig.render_params(i), '    return locals()',
+              'def w0(first, h=inner, %s):' % absig.render_params([p for p in o if p['k'] in ('var', 'kwo', 'vkw')]), '    return ' + call_text('h', o, fl),
+              'w = functools.partial(w0, S)', '']
     elif placement in ('auto_wraps', 'auto_deco_noop'):
         # decorators that only wrap: the discovered signature must not change
         L += ['def inner(%s):' % absig.render_params(i), '    return locals()',
